@@ -9,7 +9,7 @@ import json
 import sys
 
 from detectors_scenes import *  # noqa
-from fdtdx.fdtd.update import update_detector_states
+from fdtdx.fdtd.update import pad_fields_with_symmetry_mirror, update_detector_states
 
 
 def err(e):
@@ -92,6 +92,12 @@ def run_case(c):
                            "others_zero": bool((rest == 0).all())}
     res = {"shape": list(shape), "symmetry": [int(s) for s in cfg.symmetry], "bnds": describe_boundaries(oc, cfg),
            "widths": widths, "dets": outs, "nonuniform": bool(cfg.has_nonuniform_grid)}
+    if c.get("padded"):
+        # the padded arrays the full-domain fallback interpolates (anchored function called directly)
+        PE = pad_fields_with_symmetry_mirror(E, oc, cfg, "E")
+        PH = pad_fields_with_symmetry_mirror((Hp + H) / 2, oc, cfg, "H")
+        res["padded"] = {k: dict(zip(("re", "im"), cfl(v))) for k, v in (("E", PE), ("H", PH))}
+        res["padded_shape"] = list(PE.shape)
     if c.get("mode") == "forward":
         res["seen"] = {k: dict(zip(("re", "im"), cfl(v))) for k, v in (("E", E), ("H", H), ("Hprev", Hp))}
     return res
